@@ -115,7 +115,10 @@ def make_classes(repo):
             return None
 
         def _do_wait(self):
+            n_before = len(self._pending_epr_responses)
             self._handle_pending_epr_responses()
+            if len(self._pending_epr_responses) < n_before:
+                return None  # a deferred response became handleable: let the wait re-check
             if not self.pipe.responses:
                 if self._pending_epr_responses:
                     raise WaitDeadlock("wait polls, responses pending but not handleable, script empty")
